@@ -31,7 +31,9 @@ func c02Check(prop string, fams map[string]bool, rule string, assumptions []stri
 			cov["requests_executed_all_families"] = reqs
 			return cov, assumptions, mine, nil
 		},
-		Replay: func(c *runCtx, file string) error { return replayBFS(c, "c02", file, func(t string) interface{} { return map[string]interface{}{} }) },
+		Replay: func(c *runCtx, file string) error {
+			return replayBFS(c, "c02", file, func(t string) interface{} { return map[string]interface{}{} })
+		},
 	}
 }
 
